@@ -271,6 +271,8 @@ def daemon_events(raw_lines):
             out.append({"k": k, "ent": ent, "tx": ev["tx"], "role": ev["role"], "panicking": ev.get("panicking", False), "n": n})
         elif k == "reap":
             out.append({"k": "reap", "ent": ev["ent"], "tx": ev["tx"] or [-1, -1], "ok": ev["ok"], "n": n})
+        elif k == "enter" and ev.get("what") == "process_pdu" and ev.get("hid"):
+            out.append({"k": "deliver", "tx": ev["tx"], "hid": ev["hid"], "role": ev["role"], "n": n})
         elif k == "daemon_exit":
             out.append({"k": "daemon_exit", "ent": ev["ent"], "n": n})
         elif k == "daemon_alive":
